@@ -153,4 +153,11 @@ CHECKS = {
         "quick": {"shards": 16, "budget_s": 30, "min_evals": 100000, "min_counters": {"crash_states.temp-prefix": 500, "crash_states.current-renamed-to-previous": 100}},
         "thorough": {"shards": 32, "parallel": 16, "budget_s": 200, "min_evals": 5000000},
     },
+    "C12": {
+        "engine": "vp-cluster1", "level": "exploration",
+        "rule": "per shard one real single-node ClusterActor (rf 3, replication buffer 4/8/16, buffer timeout 200/350/500 ms, catch-up timeout half of it); the harness plays coordinator through ReplicateWrite (the node's own remote ref as coordinator): per schedule a fresh partition and a planned log of 6-35 transactions (1-3 events, fixed ids, Empty/Exact expected sequence) delivered from concurrent tasks with per-delivery delays: local or full shuffles, 1-3 copies, conflicting twins (same sequence, different transaction, 1/5), a slot never delivered (1/3), a slot delivered 150-300 ms late (1/2), stale re-sends. Oracle: the log (read from the Database) holds slot by slot the planned transaction or its twin at the assigned sequences, nothing beyond a never-delivered slot, nothing twice; an Ok reply only for the transaction that is in the log and with the assigned sequences; a slot delivered once after its predecessor's Ok reply must be answered Ok; no ask unanswered after 15 s (30-75 buffer timeouts); then the missing writes are re-sent strictly in order, one at a time (<= 5 attempts, 2 buffer timeouts apart): each must be applied and the final log must be complete and gapless. non-trivial = distinct schedules showing >= 2 of: buffered writes released by a late predecessor, duplicate merged, conflict refused, buffer eviction/full",
+        "assumptions": A_COMMON + ["a buffered write whose reply sender is dropped after the buffer timeout counts as answered (the coordinator sees a failure)", "reordering/duplication of individual replication messages is produced here in-process, not between real nodes (C10/C11)"],
+        "quick": {"shards": 16, "budget_s": 40, "min_evals": 500, "min_counters": {"schedules.conflict_refused": 300, "schedules.buffer_eviction_or_full": 300, "schedules.late_predecessor_released_buffered_writes": 100, "writes_applied_in_settle_phase": 3000}},
+        "thorough": {"shards": 32, "parallel": 16, "budget_s": 300, "min_evals": 5000},
+    },
 }
